@@ -89,6 +89,10 @@ def step (st : State) (w : List String) : State × String :=
         let l ← parseEntries es
         let tys ← (if ts == "none" then some [] else (ts.splitOn "+").mapM typeCode)
         some (l, tys)
+      | [es, ts, _label] => do   -- the view's free-form label plays no part in the decision
+        let l ← parseEntries es
+        let tys ← (if ts == "none" then some [] else (ts.splitOn "+").mapM typeCode)
+        some (l, tys)
       | _ => none
     match parsed with
     | some ls => ({ st with views := ls.map (fun x => Set.new x.1), vtypes := ls.map (·.2) }, "ok")
